@@ -5,7 +5,8 @@
    every handler, clock, predicate set, strategy, visited mode and fuel.
    Not expressible in a value-passing model (covered by the repeated-run / twin-run monitors only, see DESIGN):
    aliasing between the checker's copies and the source System (Rc, Python objects). *)
-From ASV Require Import Base.Util Base.Msg Base.Log Model.Store Model.McSys Model.Search Model.McRun Proofs.Restore.
+From ASV Require Import Base.Util Base.Msg Base.Log Model.Store Model.McSys Model.Search Model.McRun Model.Script Proofs.Restore
+  Proofs.LogAgree Proofs.LogAgreeEx.
 
 Section C09.
   Context {T SE : Type} (so : @store_ops T SE).
@@ -58,7 +59,51 @@ Section C09.
       run so teqb tgt0 teq0 t0 clock ps_eqb handler DS mc_rand ds_of cf pr sys cb = Ok (sys', res, ss') ->
       run so teqb tgt0 teq0 t0 clock ps_eqb handler DS mc_rand ds_of cf pr sys' cb = Ok (sys', res, ss').
   Proof. exact (run_twice_same so teqb tgt0 teq0 t0 clock ps_eqb handler DS mc_rand ds_of). Qed.
+
+  (* Event logs are restored with the states: on every state the checker reaches or restores, the event log of a
+     process tells exactly the network deliveries that process was invoked for.  For any handler that keeps a
+     record of its deliveries (`rec`, one key `dkey m from` per delivery; the processes for which `tracks` holds):
+     one expansion keeps the invariant of the system and hands only states with the invariant to the predicates;
+     restoring ANY such state - an ancestor, a sibling, a state of another branch popped from the BFS queue, a
+     start state of a staged run - gives a system with the invariant; so do the callback operations. *)
+  Theorem C09_event_log_expansion : forall (tracks : N -> bool) (K : Type) (dkey : msg -> N -> K) (rec : PS -> list K),
+      (forall proc st i time rnd, tracks proc = true ->
+         rec (fst (handler proc st i time rnd)) = rec st ++ match i with InMsg m from => [dkey m from] | _ => [] end) ->
+      forall (s s2 : @mcsys T SE PS) sts,
+      expand_sys so tgt0 teq0 t0 clock handler DS mc_rand ds_of s = Ok (s2, sts) ->
+      SysInv tracks dkey rec s -> SysInv tracks dkey rec s2 /\ List.Forall (StateInv tracks dkey rec) sts.
+  Proof. exact (expand_sys_inv so tgt0 teq0 t0 clock handler DS mc_rand ds_of). Qed.
+
+  Theorem C09_event_log_restore_any : forall (tracks : N -> bool) (K : Type) (dkey : msg -> N -> K) (rec : PS -> list K)
+      (s : @mcsys T SE PS) st s',
+      set_state s st = Ok s' -> SysInv tracks dkey rec s -> StateInv tracks dkey rec st -> SysInv tracks dkey rec s'.
+  Proof. exact (@set_state_inv T SE PS). Qed.
+
+  Theorem C09_event_log_saved : forall (tracks : N -> bool) (K : Type) (dkey : msg -> N -> K) (rec : PS -> list K)
+      (s : @mcsys T SE PS), SysInv tracks dkey rec s -> StateInv tracks dkey rec (get_state s).
+  Proof. exact (@get_state_inv T SE PS). Qed.
+
+  Theorem C09_event_log_callback : forall (tracks : N -> bool) (K : Type) (dkey : msg -> N -> K) (rec : PS -> list K),
+      (forall proc st i time rnd, tracks proc = true ->
+         rec (fst (handler proc st i time rnd)) = rec st ++ match i with InMsg m from => [dkey m from] | _ => [] end) ->
+      forall ops (s s' : @mcsys T SE PS),
+      cb_run so tgt0 teq0 t0 clock handler DS mc_rand ds_of s ops = Ok s' ->
+      SysInv tracks dkey rec s -> SysInv tracks dkey rec s'.
+  Proof. intros tracks K dkey rec H ops. exact (cb_run_inv so tgt0 teq0 t0 clock handler DS mc_rand ds_of tracks dkey rec H ops). Qed.
 End C09.
+
+(* the table-driven process of the correspondence harness keeps such a record (what the monitor
+   C09:event_log_restored compares with the event log of every explored state) *)
+Theorem C09_script_records : forall (T : Type) (progs : list (N * prog T)) proc st i time rnd,
+    script_tracks progs proc = true ->
+    script_rec (fst (progs_handler progs proc st i time rnd))
+    = script_rec st ++ match i with InMsg m from => [script_dkey m from] | _ => [] end.
+Proof. exact (@script_handler_records). Qed.
+
+(* non-vacuity: a concrete two-process system has the invariant, and after the callback and one expansion a
+   successor state carries a non-empty event log whose delivery is the one the process recorded *)
+Definition C09_event_log_example_init := l_init_inv.
+Definition C09_event_log_example_successor := l_successor_nontrivial.
 
 Print Assumptions C09_restore_exact.
 Print Assumptions C09_siblings.
@@ -66,3 +111,10 @@ Print Assumptions C09_expand_restores.
 Print Assumptions C09_run_rolls_back.
 Print Assumptions C09_run_from_states_rolls_back.
 Print Assumptions C09_repeat_identical.
+Print Assumptions C09_event_log_expansion.
+Print Assumptions C09_event_log_restore_any.
+Print Assumptions C09_event_log_saved.
+Print Assumptions C09_event_log_callback.
+Print Assumptions C09_script_records.
+Print Assumptions C09_event_log_example_init.
+Print Assumptions C09_event_log_example_successor.
